@@ -39,7 +39,12 @@
    Fix      disarming is per DIRECTION: with two unotes of one direction the first to re-arm (or a late
             registration) re-enables the direction for its sibling whose event is still unconsumed.
             TRUE: per-unote arming (deliver only to armed unotes; re-arm sets DU_STATE_ARMED again, as the
-            kevent backend does). *)
+            kevent backend does).
+
+   Not modelled: EPOLLERR without EPOLLHUP (treated as readable + writable by the library; the driver never produces
+   it), signal muxnotes (signalfd, not EV_DISPATCH), regular files (an always-ready eventfd stands in for them),
+   ENOMEM / EBADF failures of epoll_ctl other than the ENOENT after a hang-up, and the data races of the hang-up
+   path in C (the acknowledging target-queue threads and the manager touch the muxnote lists without a lock). *)
 EXTENDS Integers, FiniteSets, TLC
 
 CONSTANTS Readers,      \* unotes of DISPATCH_SOURCE_TYPE_READ on the descriptor
